@@ -401,9 +401,39 @@ func Cleanup() {
 func FireTimers() { time.Sleep(time.Duration(Param("native_timer_ms", 1300)) * time.Millisecond) }
 
 // FireTickers makes every time.Ticker deliver one tick (natively tickers run on real time).
-func FireTickers()  { time.Sleep(time.Duration(Param("native_tick_ms", 1300)) * time.Millisecond) }
-func AdvanceClock() {}
-func Threads() int  { return 0 }
+func FireTickers() { time.Sleep(time.Duration(Param("native_tick_ms", 1300)) * time.Millisecond) }
+
+// AdvanceClock lets an arbitrary amount of time pass (under gosym the ghost clock takes a new,
+// larger symbolic reading). Natively real time has to pass when the replayed path needs it: the
+// replay file holds the ghost clock's successive readings (clock, clock#1, ...); if any two of
+// them are at least a second apart the native run sleeps past the (one-second) TTLs and intervals
+// the harnesses configure.
+func AdvanceClock() {
+	mu.Lock()
+	load()
+	m := rp.Model
+	mu.Unlock()
+	var prev, maxd uint64
+	have := false
+	for i := 0; ; i++ {
+		name := "clock"
+		if i > 0 {
+			name += "#" + strconv.Itoa(i)
+		}
+		v, ok := m[name]
+		if !ok {
+			break
+		}
+		if have && v > prev && v-prev > maxd {
+			maxd = v - prev
+		}
+		prev, have = v, true
+	}
+	if maxd >= 1000000000 {
+		time.Sleep(time.Duration(Param("native_clock_ms", 1300)) * time.Millisecond)
+	}
+}
+func Threads() int { return 0 }
 func PanicMessage(v interface{}) string {
 	return fmt.Sprint(v)
 }
